@@ -1,11 +1,11 @@
 (* C09 - packet headers round-trip; bit-fields stay in lane; payload demux is right.
    Statements only; every proof is [exact lemma].
-   Proved for all values: the bit-lane lemmas and the demultiplexing rules.  The round trip
-   of whole frames is checked by the correspondence run (and the example below), not proved
-   in general (C09_roundtrip_full_statement). *)
+   Proved for all values: the bit-lane lemmas, the demultiplexing rules and the round trip of
+   whole frames (C09_roundtrip, over packet recipes).  IGMP, DHCP and LLDP have no model: they
+   are decided by the correspondence run only. *)
 From Coq Require Import NArith List Bool.
 From Coq.Strings Require Import Byte.
-From LOF Require Import Base.Bytes Base.Res Model.Wire Model.Proto Proofs.ProtoP.
+From LOF Require Import Proofs.PktRtP Base.Bytes Base.Res Model.Wire Model.Proto Proofs.ProtoP.
 Import ListNotations.
 Open Scope N_scope.
 
@@ -57,6 +57,40 @@ Print Assumptions C09_demux_tagged.
 
 (* full round-trip statement, not proved in general (the correspondence run checks it on
    random well-formed frames; KNOWN FINDING D31: a tag with VLAN id 0 is not re-encoded) *)
+(* ---- the round trip ----
+   Packets as recipes (Proofs/PktRtP.v): an Ethernet frame with or without an 802.1Q tag, carrying
+   ARP, IPv4 (with options; ICMP / UDP / opaque payload selected by the protocol number), IPv6
+   (any chain of hop-by-hop / routing / fragment headers, each naming the next, ending in
+   ICMPv6 / UDP / opaque) or an opaque payload, selected by the ethertype behind the tag.
+   [eth_ok]: every field within its width, addresses at their sizes, IHL >= 5 and the options
+   exactly IHL*4-20 bytes, extension headers exactly 8*(len+1) bytes with well-formed options,
+   selectors consistent with the parts present, no 802.1Q tag with VLAN id 0 (finding D31). *)
+Theorem C09_roundtrip : forall e, eth_ok e = true -> dec_eth (wire (eth_tree e)) = Ok (eth_tree e).
+Proof. exact dec_eth_rt. Qed.
+Print Assumptions C09_roundtrip.
+
+Theorem C09_roundtrip_nonvacuous :
+  eth_ok {| e_dst := [x01;x02;x03;x04;x05;x06]; e_src := [x0a;x0b;x0c;x0d;x0e;x0f]; e_tci := Some 40965; e_type := 34525;
+            e_pl := L3Ip6 {| i6_w0 := 1610612736; i6_len := 44; i6_hop := 64; i6_src := zeros 16; i6_dst := zeros 16;
+                             i6_exts := [XHbh 0 [x05;x02;x00;x00;x01;x00]; XRouting 1 0 0 (zeros 12); XFrag 0 8 77];
+                             i6_fin := 17; i6_pl := L4Udp 53 4242 12 0 [x01;x02;x03;x04] |} |} = true.
+Proof. exact eth_example_ok. Qed.
+
+Theorem C09_ipv6_chain : forall xs fin p fuel, forallb ext_ok xs = true -> l4_ok p = true -> fin_ok fin p = true ->
+  (length (flat_map wire (chain_trees xs fin p)) < fuel)%nat ->
+  dec_chain fuel (chain_first xs fin) (flat_map wire (chain_trees xs fin p)) = Ok (chain_trees xs fin p).
+Proof. exact (fun xs fin p fuel H1 H2 H3 H4 => eq_trans (f_equal _ (eq_sym (app_nil_r _))) (dec_chain_rt xs fin p [] fuel H1 H2 H3 H4 eq_refl)). Qed.
+Print Assumptions C09_ipv6_chain.
+
+Theorem C09_tcp : forall sp dp sq ak b12 code win cs urg rest,
+  sp < 65536 -> dp < 65536 -> sq < 4294967296 -> ak < 4294967296 -> b12 < 256 -> code < 256 -> win < 65536 -> cs < 65536 -> urg < 65536 ->
+  pack_tcp_off (unpack_tcp_off b12) = b12 -> mask_tcp_code code = code ->
+  let t := T KTcp [VN sp; VN dp; VN sq; VN ak; VN b12; VN code; VN win; VN cs; VN urg; VB rest] [] in
+  dec_tcp (wire t) = Ok t.
+Proof. exact dec_tcp_rt. Qed.
+Print Assumptions C09_tcp.
+
+(* the converse direction (re-encoding whatever decodes) is false in general: *)
 Definition C09_roundtrip_full_statement : Prop :=
   forall frame t, dec_eth frame = Ok t -> wire t = frame.
 
